@@ -145,3 +145,17 @@ def finish(rep, seed=0):
     print("%s: %d obligations, %d discharged, %d known findings, %d violations (%.1fs)" % (
         rep.prop, n_ob, n_ok, len(kf), len(viol), time.time() - rep.t0))
     return 1 if viol else 0
+
+
+def borrow(rep, fn, select, F):
+    """run another property's rule function fn(F, report) on a scratch report and take over the obligations `select(o)`
+    accepts: rules are shared by clause, not by property number"""
+    scratch = Report("_", "quick")
+    fn(F, scratch)
+    n = 0
+    for o in scratch.obs:
+        if select(o):
+            rep.obs.append(o)
+            rep.sites += max(o.get("sites", 1), 0)
+            n += 1
+    return n
